@@ -621,6 +621,13 @@ func refreshV2(t types.V2Transaction, l *refl.Ledger) types.V2Transaction {
 	}
 	for i := range c.FileContractResolutions {
 		fix(types.Hash256(c.FileContractResolutions[i].Parent.ID), &c.FileContractResolutions[i].Parent.StateElement)
+		if sp, ok := c.FileContractResolutions[i].Resolution.(*types.V2StorageProof); ok {
+			if cie, ok := l.CIE[sp.ProofIndex.ChainIndex.Height]; ok && cie.ChainIndex == sp.ProofIndex.ChainIndex {
+				nsp := *sp
+				nsp.ProofIndex = cie.Copy()
+				c.FileContractResolutions[i].Resolution = &nsp
+			}
+		}
 	}
 	return c
 }
